@@ -478,6 +478,16 @@ def judge(run, cases, results):
                 m = re.match(r"inserts ok n=(\d+)", r.get("inserts") or "")
                 if m:
                     run.cov["insertions_replayed_in_model"] = run.cov.get("insertions_replayed_in_model", 0) + int(m.group(1))
+                    # hypotheses of discovery_insertions_keep_order (Topo/DiscInsertProofs.v) evaluated on every traced call:
+                    # inthm = inside the theorem (and its conclusion was checked on the C tree after the call), putback = the
+                    # excluded put-back outcome, noord = the tree before the call is not ordered, nohyp = OBJ without a usable
+                    # cpuset / the known sibling defect would be met
+                    m2 = re.search(r"inthm=(\d+) putback=(\d+) noord=(\d+) nohyp=(\d+)", r["inserts"])
+                    if m2:
+                        for key, v in zip(("insertions_inside_order_theorem", "insertions_outside_putback", "insertions_outside_tree_not_ordered", "insertions_outside_hypotheses"), m2.groups()):
+                            run.cov[key] = run.cov.get(key, 0) + int(v)
+                        if int(m2.group(3)) + int(m2.group(4)) > 0 and len(run.cov.setdefault("inputs_with_insertions_outside_order_theorem", [])) < 40:
+                            run.cov["inputs_with_insertions_outside_order_theorem"].append(name[:160])
                 m = re.match(r"synthreq ok n=(\d+)", r.get("synthreq") or "")
                 if m:
                     run.cov["synthetic_requests_compared_with_model"] = run.cov.get("synthetic_requests_compared_with_model", 0) + int(m.group(1))
